@@ -150,6 +150,9 @@ def build_runners(P):
     rc, out = sh("make modelrun MODEL=%s" % P.MODEL, timeout=1200)
     if rc != 0:
         problems.append("model runner build failed:\n" + "\n".join(out.splitlines()[-20:]))
+    if not os.path.exists(os.path.join(HARNESS, "Cargo.lock")):
+        # offline resolution needs a lock file; /repo's lock pins every crate the harness uses
+        shutil.copy("/repo/Cargo.lock", os.path.join(HARNESS, "Cargo.lock"))
     rc, out = sh("cargo build --offline --bin %s 2>&1" % P.IMPL, cwd=HARNESS, timeout=3000)
     if rc != 0:
         errs = [l for l in out.splitlines() if l.startswith("error")][:10]
